@@ -4,6 +4,7 @@ use crate::rng::Rng;
 use crate::{Ctx, guarded};
 use ldpc_toolbox::mackay_neal::{self, FillPolicy};
 use ldpc_toolbox::peg;
+use ldpc_toolbox::sparse::SparseMatrix;
 
 fn mn_cfg_str(c: &mackay_neal::Config) -> String {
     format!("{} {} {} {} {} {} {} {} {}", c.nrows, c.ncols, c.wr, c.wc, c.backtrack_cols, c.backtrack_trials,
@@ -107,6 +108,23 @@ pub fn run(ctx: &mut Ctx, _replay: Option<&[String]>) {
         ctx.emit(&format!("c16 peg {} {} {} {}", nrows, ncols, wc, seed), &out, out.starts_with("ok"),
             &[if out.starts_with("ok") { "peg-ok" } else { "peg-err" }, if wc > nrows { "peg-wc-exceeds-rows" } else { "peg-wc-fits" }]);
     }
+    // PEG on more than 2^16 check nodes (69632 rows, a few thousand edges): row indices must not pass through a 16-bit type.  The matrix is far
+    // beyond the list-based validator of the model, so the PEG rule of the property statement is replayed here, edge by edge: every
+    // column has min(wc, rows) entries, and each entry, in insertion order, was placed on a check not yet adjacent to the column that was
+    // unreachable from it (or, if all were reachable, at maximal distance) and of least degree among those.
+    for k in 0..ctx.scale(1, 6) {
+        let nrows = 65536 + 4096 + rng.below(2000);
+        let (ncols, wc) = if k % 2 == 0 { (100, 30) } else { (1200, 3) };
+        let seed = rng.next() % 100_000;
+        let cfg = peg::Config { nrows, ncols, wc };
+        let c2 = cfg.clone();
+        let out = match guarded(move || c2.run(seed)) {
+            Ok(Ok(h)) => peg_replay(&h, nrows, ncols, wc).err().unwrap_or_else(|| "rule-ok".to_string()),
+            Ok(Err(_)) => "err".to_string(),
+            Err(_) => "panic".to_string(),
+        };
+        ctx.emit(&format!("c16 pegbig {} {} {} {}", nrows, ncols, wc, seed), &out, true, &["peg-more-than-65536-rows"]);
+    }
     // different seeds explore different choices: 16 seeds on roomy configurations
     let roomy = mackay_neal::Config { nrows: 10, ncols: 20, wr: 8, wc: 3, backtrack_cols: 0, backtrack_trials: 0, min_girth: None, girth_trials: 0, fill_policy: FillPolicy::Random };
     let distinct = (0..16u64).filter_map(|s| roomy.run(s).ok()).map(|h| h.alist()).collect::<std::collections::HashSet<_>>().len();
@@ -191,4 +209,46 @@ pub fn run(ctx: &mut Ctx, _replay: Option<&[String]>) {
         ctx.emit(&format!("c16 search {} {} {}", mn_cfg_str(&cfg), start, tries), &out, true,
             &[if out.starts_with("some") { "search-found" } else { "search-none" }]);
     }
+}
+
+/// Replay of a finished PEG matrix against the selection rule (the Rust twin of `Constr.pegAccepts`, incremental so that it is linear
+/// in rows x edges): columns in order, the entries of a column in the order of its list.
+fn peg_replay(h: &SparseMatrix, nrows: usize, ncols: usize, wc: usize) -> Result<(), String> {
+    if h.num_rows() != nrows || h.num_cols() != ncols { return Err("wrong-size".into()); }
+    let mut rows: Vec<Vec<usize>> = vec![Vec::new(); nrows];
+    let mut cols: Vec<Vec<usize>> = vec![Vec::new(); ncols];
+    let mut dist: Vec<usize> = vec![usize::MAX; nrows];     // distance of each row from the current column (MAX = unreachable)
+    let mut cdist: Vec<usize> = vec![usize::MAX; ncols];
+    for c in 0..ncols {
+        let list: Vec<usize> = h.iter_col(c).copied().collect();
+        if list.len() != wc.min(nrows) { return Err(format!("column-{}-weight-{}-is-not-min(wc,rows)", c, list.len())); }
+        for (k, &r) in list.iter().enumerate() {
+            if r >= nrows { return Err("row-index-out-of-range".into()); }
+            // BFS from column c in the graph built so far
+            let mut touched_r: Vec<usize> = Vec::new();
+            let mut touched_c: Vec<usize> = vec![c];
+            cdist[c] = 0;
+            let mut frontier_c = vec![c];
+            let mut d = 0usize;
+            while !frontier_c.is_empty() {
+                let mut frontier_r = Vec::new();
+                for &cc in &frontier_c { for &rr in &cols[cc] { if dist[rr] == usize::MAX { dist[rr] = d + 1; touched_r.push(rr); frontier_r.push(rr); } } }
+                frontier_c = Vec::new();
+                for &rr in &frontier_r { for &cc in &rows[rr] { if cdist[cc] == usize::MAX { cdist[cc] = d + 2; touched_c.push(cc); frontier_c.push(cc); } } }
+                d += 2;
+            }
+            // key: unreachable first, then larger distance, then smaller degree — smaller tuple is better
+            let key = |x: usize| -> (u8, usize, usize) { if dist[x] == usize::MAX { (0, 0, rows[x].len()) } else { (1, usize::MAX - dist[x], rows[x].len()) } };
+            let best = (0..nrows).map(key).min().unwrap();
+            let verdict = if cols[c].contains(&r) { Some("already-adjacent") } else if key(r) != best { Some("not-on-a-best-check") } else { None };
+            for &rr in &touched_r { dist[rr] = usize::MAX; }
+            for &cc in &touched_c { cdist[cc] = usize::MAX; }
+            if let Some(v) = verdict {
+                return Err(format!("edge-{}-of-column-{}-on-row-{}-{}(unreachable-first,-then-farthest,-then-least-degree)", k, c, r, v));
+            }
+            rows[r].push(c);
+            cols[c].push(r);
+        }
+    }
+    Ok(())
 }
